@@ -52,7 +52,17 @@ def main():
         with E.quiet():
             mesh = BoutMesh(eq, opts)
         events.append({"ev": "BuildMesh", "arg": job["build_with"], "out": "ok", "exc": ""})
-        before = dict(mesh.user_options)
+        def other_options():
+            # every holder of the settings that are NOT non-orthogonal ones: the mesh, the equilibrium, every equilibrium region and mesh region
+            h = {"mesh": dict(mesh.user_options), "eq": dict(eq.user_options)}
+            for nm, er in eq.regions.items():
+                h["eqreg:" + nm] = dict(er.user_options)
+            for i, r in mesh.regions.items():
+                h["meshreg:%d" % i] = dict(r.user_options)
+                h["meshreg_er:%d" % i] = dict(r.equilibriumRegion.user_options)
+            return h
+
+        before = other_options()
         for act, arg in job["history"]:
             try:
                 with E.quiet():
@@ -67,7 +77,9 @@ def main():
                 events.append({"ev": act, "arg": arg or "", "out": "ok", "exc": ""})
             except Exception as e:  # noqa
                 events.append({"ev": act, "arg": arg or "", "out": "refused", "exc": "%s: %s" % (type(e).__name__, str(e)[:120])})
-        status["user_options_unchanged"] = 1 if dict(mesh.user_options) == before else 0
+        after = other_options()
+        status["user_options_unchanged"] = 1 if after == before else 0
+        status["user_options_changed_in"] = sorted(k for k in before if after.get(k) != before[k])
         status["final_nonorth"] = {k: (v if isinstance(v, (int, float, str, bool)) or v is None else repr(v)) for k, v in dict(eq.nonorthogonal_options).items()}
         if events and events[-1]["ev"] == "Geometry" and events[-1]["out"] == "ok":
             dump(mesh, os.path.join(outdir, "final.npz"))
